@@ -518,7 +518,6 @@ class FeArray(np.ndarray):
         "argmin",
         "all",
         "any",
-        "ravel",
         "cumsum",
         "cumprod",
     ):
@@ -527,6 +526,10 @@ class FeArray(np.ndarray):
 
     def flatten(self, *args, **kwargs):
         return self.view(np.ndarray).flatten(*args, **kwargs)
+
+    def ravel(self, *args, **kwargs):
+        # its argument is the memory order, not an axis: always a plain 1-D array
+        return self.view(np.ndarray).ravel(*args, **kwargs)
 
     def trace(self, offset=0, axis1=0, axis2=1, *args, **kwargs):
         res = self.view(np.ndarray).trace(offset, axis1, axis2, *args, **kwargs)
